@@ -67,6 +67,9 @@ def cases(d):
         cls["dyn"][0]["stmts"].append(["expr", ["bin", d.choice(["<", "<=", "!="]), ["f", "a"], ["f", "k"]]])
     # a foreach over the instance's (non-random, editable) list inside a dynamic block
     if d.chance(45):
+        if d.chance(60):
+            # keep the rest of the block loose, so that what the foreach says decides which values the block allows
+            cls["dyn"][1]["stmts"] = [["expr", ["bin", d.choice(["<=", "!="]), ["f", d.choice(["a", "b"])], ["lit", d.randint(2, 6)]]]] if d.chance(50) else []
         cls["dyn"][1]["stmts"].append(["foreach", "nl", "i", None,
                                        [["expr", ["bin", "!=", ["f", d.choice(["a", "b"])], ["el", "nl", ["iv", "i"], None]]]]])
     ops = [["new", d.randint(0, 7)]]
@@ -81,9 +84,9 @@ def cases(d):
                        else ["nlappend", d.randint(0, n - 1), d.randint(0, 7)])
         elif r < 40:
             ops.append(["call", d.randint(0, n - 1), "randomize", None, d.seed()])
-        elif r < 85 or n < 2:
+        elif r < 78 or n < 2:
             ops.append(["call", d.randint(0, n - 1), "randomize_with", gen_inline(d, g), d.seed()])
-        elif r < 90:
+        elif r < 84:
             # holder whose CLASS constraint references the dynamic block of the element selected by a non-random index;
             # the index is reassigned between the calls
             i, j = d.sample(list(range(n)), 2)
@@ -94,14 +97,15 @@ def cases(d):
             i, j = d.sample(list(range(n)), 2)
             e = d.randint(0, 1)
             pick = (lambda: d.choice(["d0", "d1"]))
-            inl = [["expr", ["dyn", "arr[%d].%s" % (e, pick())]]]
+            has_fe = any(s_[0] == "foreach" for s_ in cls["dyn"][1]["stmts"])
+            inl = [["expr", ["dyn", "arr[%d].%s" % (e, "d1" if (has_fe and d.chance(60)) else pick())]]]
             if d.chance(40):
                 inl.append(["expr", ["not", ["dyn", "arr[%d].%s" % (1 - e, pick())]]])
             if d.chance(30):
                 # every element's block, referenced through the index of an inline foreach
                 inl = [["foreach", "arr", "i", None, [["expr", ["dynel", "arr", ["iv", "i"], pick()]]]]] + (inl[1:] if d.chance(50) else [])
             ops.append(["hcall", [i, j], inl, d.seed()])
-            if d.chance(50):
+            if d.chance(70):
                 # the same reference again after the referenced element's list has changed (a foreach inside the block
                 # must follow the list on every call)
                 src_i = [i, j][e]
@@ -362,6 +366,8 @@ def run_case(case):
     lvals = []
     prev_inline = {}
     inline_sets = {}
+    holders = {}
+    holder_prev = {}
     for step, op in enumerate(case["ops"]):
         where = "step %d %s" % (step, cjson(op)[:160])
         if op[0] == "new":
@@ -491,9 +497,15 @@ def run_case(case):
         if op[0] == "hcall":
             _, (i, j), inline, seed = op
             try:
-                h = ns["H"]()
-                h.arr.append(objs[i])
-                h.arr.append(objs[j])
+                # the same pair of instances is held by the same holder object from one holder call to the next
+                h = holders.get((i, j))
+                if h is None:
+                    h = ns["H"]()
+                    h.arr.append(objs[i])
+                    h.arr.append(objs[j])
+                    holders[(i, j)] = h
+                else:
+                    info["holder_reused"] = info.get("holder_reused", 0) + 1
             except Exception as e:
                 reset_library()
                 return [V("library_exception", "holder construction: " + exc_sig(e), case, where + " raised %r" % (e,))], info
@@ -531,6 +543,40 @@ def run_case(case):
             elif got not in set(sols):
                 return [V("wrong_binding", "dynamic block referenced through a list element constrains the wrong object", case,
                           where + ": elements (k=%d, k=%d) got %s; allowed e.g. %s" % (kvals[i], kvals[j], got, sols[:3]))], info
+            # pinned probes on the holder: assignments that the class blocks allow but the referenced blocks forbid on these
+            # elements must be rejected (the blocks are in force as they are NOW, e.g. over the lists' present contents),
+            # a member must be accepted
+            solset_h = set(sols)
+            _, class_ok = flat.enumerate_solutions(htypes, hrf, env0, hstmts, hdyn)
+            forb_h = [v for v in class_ok if v not in solset_h]
+            hnames = [f["name"] for f in hrf]
+            probes_h = []
+            selv = case["sel"]
+            # first choice: assignments that the same reference allowed on the previous holder call and that the blocks
+            # forbid now (the elements' lists changed in between): a stale per-call expansion would still accept them
+            pkey = (i, j, cjson(inline))
+            stale = [v for v in holder_prev.get(pkey, ()) if v not in solset_h and v in set(class_ok)]
+            for k_ in range(min(2, len(stale))):
+                probes_h.append((stale[(selv[(4 + k_) % len(selv)]) % len(stale)], False))
+                info["stale_probes"] = info.get("stale_probes", 0) + 1
+            holder_prev[pkey] = list(sols)
+            for k_ in range(min(3, len(forb_h))):
+                probes_h.append((forb_h[(selv[k_ % len(selv)] + 7 * k_) % len(forb_h)], False))
+            if sols:
+                probes_h.append((sols[selv[3 % len(selv)] % len(sols)], True))
+            for vals_, member in probes_h:
+                pins = [["expr", ["bin", "==", ["f", nm_], ["lit", v_]]] for nm_, v_ in zip(hnames, vals_)]
+                st3, exc3 = flat.do_call(ns, h, "randomize_with", inline + pins, seed + 3)
+                info["calls"] += 1
+                desc = where + ": pin %s on the holder" % cjson(dict(zip(hnames, vals_)))
+                if st3 == "exc":
+                    reset_library()
+                    return [V("library_exception", "holder pinned probe: " + exc3.sig, case, desc + " raised %r" % (exc3,))], info
+                if st3 == "ret" and not member:
+                    return [V("wrong_binding", "a value the referenced element block forbids is accepted", case,
+                              desc + " returned although the blocks referenced through the list elements forbid it")], info
+                if st3 == "sf" and member:
+                    return [V("spurious_solve_failure", "holder pinned member", case, desc + " raised SolveFailure")], info
             continue
     info["ninst"] = len(objs)
     info["kdiff"] = len(set(kvals)) > 1
@@ -555,6 +601,8 @@ def body(case, acc):
     if any(s_[0] == "foreach" for b in case["cls"]["dyn"] for s_ in b["stmts"]):
         acc.label("foreach inside a dynamic block")
     acc.label("list edits", info.get("list_edits", 0))
+    acc.label("holder call on a holder used before", info.get("holder_reused", 0))
+    acc.label("probes: allowed by the previous holder call, forbidden now", info.get("stale_probes", 0))
     acc.label("calls on a holder whose class constraint references arr[sel].dyn()", info.get("h2calls", 0))
     return vios
 
